@@ -476,6 +476,19 @@ func c16BuiltinPrograms() []c16Item {
 			}
 		}
 	}
+	// string literals with each printable character, written directly where a value is used. The four
+	// characters that are special inside a double-quoted shell word (" $ ` \) are C08's listed business.
+	for ch := byte(32); ch < 127; ch++ {
+		if ch == '"' || ch == '$' || ch == '`' || ch == '\\' {
+			continue
+		}
+		for _, lit := range []string{string(ch), "a" + string(ch) + "b", string(ch) + string(ch)} {
+			q := tsmodelQuote(lit)
+			src := prelude + "func two(a string, b string) string {\n\treturn a + b\n}\n" +
+				"print(" + q + ")\nga = " + q + "\nuseit(" + q + ")\nga = two(" + q + ", " + q + ")\nif ga == " + q + " {\n\tprint(two(\"k\", " + q + "))\n}\nsx := []string{" + q + "}\nsx[1] = " + q + "\nwrite(\"f.txt\", " + q + ")\n"
+			out = append(out, c16Item{name: fmt.Sprintf("builtin literal-char=0x%02x shape=%d", ch, len(lit)), src: src})
+		}
+	}
 	// a block whose only statement is an expression statement that emits no line
 	for _, e := range []string{"itoa(vi)", "vi", "5", "\"s\"", "true", "(vi)", "vs", "(itoa(vi))"} {
 		for _, c := range cn {
@@ -516,6 +529,8 @@ func c16BuiltinPrograms() []c16Item {
 	out = append(out, c16Item{name: "nesting depth 6 with break/continue", src: deep})
 	return out
 }
+
+func tsmodelQuote(s string) string { return Quote(s) }
 
 func C16() int {
 	r := findings.New("C16")
